@@ -118,6 +118,9 @@ func C06(r *eng.Run) {
 		return
 	}
 	shapes := Shapes(r.Thorough())
+	if !r.Thorough() {
+		shapes = dedupe(append(shapes, WordShapes()...))
+	}
 	type cz struct{ c *big.Int }
 	var coefs []*big.Int
 	for _, c := range shapes {
